@@ -348,6 +348,8 @@ _sk = [0]
 def skolemise_goal(goal):
     """a universally quantified goal is proved for fresh constants (so that sums over the bound variable get unfolded)"""
     g = goal
+    if z3.is_and(g) and any(z3.is_quantifier(c) and c.is_forall() for c in g.children()):
+        return z3.And([skolemise_goal(c) for c in g.children()])       # A and (forall j. B)  ==  forall j. (A and B)
     for _ in range(4):
         if z3.is_quantifier(g) and g.is_forall():
             consts = []
@@ -380,9 +382,45 @@ def _sum_under_quantifier(fs):
     return any(go(f, False) for f in fs)
 
 
+def _consts_of(e):
+    seen, out, todo = set(), [], [e]
+    while todo:
+        x = todo.pop()
+        if x.get_id() in seen:
+            continue
+        seen.add(x.get_id())
+        if z3.is_const(x) and x.decl().kind() == z3.Z3_OP_UNINTERPRETED:
+            out.append(x)
+        elif z3.is_app(x):
+            todo.extend(x.children())
+        elif z3.is_quantifier(x):
+            todo.append(x.body())
+    return out
+
+
+def _instances(hyps, consts):
+    """ground instances of the universally quantified hypotheses (one Int variable) at the goal's skolem constants: index terms
+    with arithmetic in them (a[32 + 30*j + j/10]) give the solver no usable trigger"""
+    out = []
+    for f in hyps:
+        if z3.is_quantifier(f) and f.is_forall() and f.num_vars() == 1 and f.var_sort(0) == z3.IntSort():
+            for c in consts:
+                out.append(z3.simplify(z3.substitute_vars(f.body(), c)))
+    return out
+
+
 def query_formulas(ob, fuel=1):
-    neg = z3.Not(skolemise_goal(z3.simplify(ob.goal)))
+    g0 = z3.simplify(ob.goal)
+    n0 = _sk[0]
+    sg = skolemise_goal(g0)
+    neg = z3.Not(sg)
     base = [z3.simplify(f) for f in list(ob.pc) + [neg]]
+    if _sk[0] > n0:
+        consts = [c for c in _consts_of(sg) if c.decl().name().startswith('sk!') and c.sort() == z3.IntSort()]
+        hyps = []
+        for f in base[:-1]:
+            hyps.extend(f.children() if z3.is_and(f) else [f])
+        base = base + _instances(hyps, consts[:6])[:80]
     lower = 'no-rmax-lower' not in (ob.hints or [])
     ax = unfold_all(base, fuel, lower)
     dx = def_axioms(base + ax)
@@ -414,7 +452,7 @@ def _cli(smt, timeout_ms):
     return None
 
 
-def discharge(ob, timeout_ms=20000, use_cli=True, split=True):
+def discharge(ob, timeout_ms=20000, use_cli=True, split=1):
     """dict(verdict, backend, time, ...)   verdict: proved | candidate | unknown"""
     t0 = time.time()
     g = z3.simplify(ob.goal)
@@ -451,13 +489,29 @@ def discharge(ob, timeout_ms=20000, use_cli=True, split=True):
     if r == z3.sat:
         cand = model_to_dict(s.model(), ob)
     # 2b. a conjunctive goal is proved conjunct by conjunct (each query keeps the whole path condition)
-    if split and z3.is_and(g) and 1 < g.num_args() <= 64:
+    gs = g
+    if split and not z3.is_and(g):
+        # forall j. (A and B and ...)  is proved conjunct by conjunct for a fresh j;   P -> (A and B)  as  P -> A, P -> B
+        gs = z3.simplify(skolemise_goal(g))
+        hyp = []
+        for _ in range(3):
+            if z3.is_implies(gs):
+                hyp.append(gs.arg(0))
+                gs = gs.arg(1)
+            elif z3.is_or(gs) and gs.num_args() == 2 and z3.is_and(gs.arg(1)):
+                hyp.append(z3.Not(gs.arg(0)))
+                gs = gs.arg(1)
+            else:
+                break
+        if z3.is_and(gs) and hyp:
+            gs = z3.And([z3.Implies(z3.And(hyp), c) for c in gs.children()])
+    if split and z3.is_and(gs) and 1 < gs.num_args() <= 64:
         import copy
         parts = []
-        for c in g.children():
+        for c in gs.children():
             o2 = copy.copy(ob)
             o2.goal = c
-            r2 = discharge(o2, timeout_ms, use_cli, split=False)
+            r2 = discharge(o2, timeout_ms, use_cli, split=int(split) - 1)
             if r2['verdict'] != 'proved':
                 parts = None
                 break
